@@ -12,6 +12,7 @@ import Proofs.DepGraphDependsRec
 import Proofs.DepGraphDepsRecTotal
 import Proofs.FlattenDepthOne
 import Proofs.FlattenRanked
+import Proofs.FlattenOrder
 import Proofs.DepGraphTopoComplete
 /-!
 # C16 — the dependency graph mirrors a plain node/edge set under any edit history
@@ -32,8 +33,11 @@ most / fewest edges).  `grafts_preserve_order` extends this to any sequence of g
 `flatten` is such a sequence.  Recursive `dependencies` is `dependencies_rec_returns` (total: it always returns, cycles included, with exactly the
 reachable nodes; `dependencies_rec_reads` is the partial-correctness half), recursive `depends` is `depends_rec_reads`
 (total: it always answers, cycles included), `<=` is `le_reads`, `==` is `eq_reads`.
-`flatten(recurse=True)` returns on every well-founded nesting (`flatten_returns`, `flatten_all_plain`); that what it
-returns preserves the ordering constraints across several levels is not proved as one theorem — in the executable model and tied to the code by the correspondence
+`flatten(recurse=True)` returns on every well-founded nesting (`flatten_returns`, `flatten_all_plain`), and on every
+well-founded tree-like nesting of acyclic graphs what it returns preserves the ordering constraints across all levels
+(`flatten_order_preserved`: between the plain nodes of the graph; `flatten_order_all_plain`: between all plain nodes of the
+nesting, `Proofs/FlattenOrder.lean`); nestings in which one graph object stands at several places are in the executable
+model and tied to the code by the correspondence
 (`multi_history_refines` is therefore the `…_partial` form of the property's first sentence: histories whose grafts are
 taken one at a time through `graft_refines_spec`).  `c16_pinned_refuted` keeps the pinned `graft` (A19) refuted.
 -/
@@ -550,6 +554,37 @@ example : RankedStore (fun _ => some G.empty) (fun _ => 0) := by
   refine ⟨G.empty, rfl, GInv.empty, ?_⟩
   intro z hz
   simp [G.Node, G.empty, RList.empty] at hz
+
+/-- **flattening nested graphs preserves the ordering constraints between the plain nodes of the graph** (last sentence of
+the property, all levels at once): for a well-formed acyclic graph `g` over a well-founded (`RankedStore`), tree-like
+(`TreeStore`: every graph of the nesting acyclic, every node owned by the one nested node whose graph holds it, the nodes of
+`g` owned by nobody — so no graph stands at two places and no two graphs share a node) nesting, `flatten(recurse=True)`
+returns a well-formed acyclic graph of plain nodes in which two plain nodes of `g` have to come one after the other exactly
+when they had to in `g`.  All hypotheses are about the initial graph and the store. -/
+theorem flatten_order_preserved (store : Nat → Option G) (rk : Nat → Nat) (own : Nat → Option Nat)
+    (hst : RankedStore store rk) (hts : TreeStore store own) (R : Nat) (g : G) (hg : GInv g) (hac : ¬ g.Cyclic)
+    (hr : ∀ z, g.Node z → nestedBase ≤ z → rk z < R) (hroot : ∀ z, g.Node z → own z = none) :
+    ∃ g', flattenLoop store true (R + 1) g = .ok g' ∧ GInv g' ∧ ¬ g'.Cyclic ∧ (∀ z, g'.Node z → z < nestedBase) ∧
+      ∀ u w, g.Node u → u < nestedBase → g.Node w → w < nestedBase →
+        (g'.Node u ∧ g'.Node w ∧ (Relation.TransGen g'.Edge u w ↔ Relation.TransGen g.Edge u w)) :=
+  flatten_preserves_order store rk own hst hts R g hg hac hr hroot
+
+/-- **… and between all plain nodes**, those that come out of the nested graphs included: the nodes of the flattened graph
+are exactly the plain nodes of the nesting (`InNesting`), and one has to come after another exactly when, in some graph of
+the nesting, a node that is or (at any depth) holds the first has to come after a node that is or holds the second
+(`NOrd`; on the nodes of `g` itself this is `g`'s own order: `nord_outer`). -/
+theorem flatten_order_all_plain (store : Nat → Option G) (rk : Nat → Nat) (own : Nat → Option Nat)
+    (hst : RankedStore store rk) (hts : TreeStore store own) (R : Nat) (g : G) (hg : GInv g) (hac : ¬ g.Cyclic)
+    (hr : ∀ z, g.Node z → nestedBase ≤ z → rk z < R) (hroot : ∀ z, g.Node z → own z = none) :
+    ∃ g', flattenLoop store true (R + 1) g = .ok g' ∧ GInv g' ∧ ¬ g'.Cyclic ∧
+      (∀ z, g'.Node z ↔ InNesting store g z ∧ z < nestedBase) ∧
+      ∀ u w, g'.Node u → g'.Node w → (Relation.TransGen g'.Edge u w ↔ NOrd store own g u w) :=
+  flatten_order_full store rk own hst hts R g hg hac hr hroot
+
+/-- the natural order of the nesting is the order of `g` on the nodes of `g` -/
+theorem nesting_order_on_outer {store : Nat → Option G} {own : Nat → Option Nat} {g : G}
+    (hroot : ∀ z, g.Node z → own z = none) (hts : TreeStore store own) {u w : Nat} (hu : g.Node u) (hw : g.Node w) :
+    NOrd store own g u w ↔ Relation.TransGen g.Edge u w := nord_outer hroot hts hu hw
 
 /-- one round of the model's `flatten` is such a sequence of grafts -/
 theorem flatten_round_eq (store : Nat → Option G) (g : G) (fuel : Nat) (subs : List G)
